@@ -630,4 +630,126 @@ Proof.
            ++ intros [H|[[H|H] Hne]]; [right; left; left; now symmetry|now left|right; now right].
 Qed.
 
+(* ---------------------------------------------------------------- remove *)
+
+Definition remove_post (d : dict) (k : key) (d' : dict) : Prop :=
+  forall e, In e (bindings d') <-> In e (bindings d) /\ fst e <> k.
+
+(* collapse_node restores the canonical shape and keeps the stored pairs *)
+Lemma collapse_ok n lvl bm cs : pre n lvl bm cs ->
+  (collapse_node key val bm cs = Empty \/ inv (S n) lvl (collapse_node key val bm cs))
+  /\ bindings (collapse_node key val bm cs) = bindings (Node bm cs).
+Proof.
+  intros Hpre. pose proof Hpre as [Hbm HF].
+  destruct cs as [|c [|c2 cs]]; cbn [collapse_node].
+  - split; [now left|reflexivity].
+  - inversion HF as [|f c' fs cs' [Hc Hck] Hrest Ef]; subst.
+    destruct c as [|h k v|h es|bm' cs'].
+    + now apply inv_not_empty in Hc.
+    + split; [right; eapply inv_leaf_any; exact Hc|].
+      rewrite bindings_node. cbn [flat_map]. now rewrite app_nil_r.
+    + split; [right; eapply inv_coll_any; exact Hc|].
+      rewrite bindings_node. cbn [flat_map]. now rewrite app_nil_r.
+    + split; [|reflexivity]. right. apply inv_node. split; [exact Hpre|exact I].
+  - split; [|reflexivity]. right. apply inv_node. split; [exact Hpre|exact I].
+Qed.
+
+Lemma remove_leaf_ok n lvl fuel lh lk lv k :
+  (0 < fuel)%nat -> inv n lvl (Leaf lh lk lv) ->
+  exists d', remove_aux key val key_eqb fuel (Leaf lh lk lv) k (hash k) (5 * Z.of_nat lvl) = Some d'
+    /\ (d' = Empty \/ inv n lvl d') /\ remove_post (Leaf lh lk lv) k d'.
+Proof.
+  intros Hfuel Hinv. destruct fuel as [|fuel]; [lia|]. cbn [remove_aux].
+  destruct (key_eqb lk k) eqn:E.
+  - apply key_eqb_spec in E. subst lk. eexists. split; [reflexivity|]. split; [now left|].
+    intros e. cbn [bindings In]. split; [tauto|]. intros [[H|[]] Hne]. subst e. now contradiction Hne.
+  - apply key_eqb_false in E. eexists. split; [reflexivity|]. split; [now right|].
+    intros e. cbn [bindings In]. split; [|tauto]. intros [H|[]]. split; [now left|]. subst e. exact E.
+Qed.
+
+Lemma remove_coll_ok n lvl fuel ch es k :
+  (0 < fuel)%nat -> inv n lvl (Collision ch es) ->
+  exists d', remove_aux key val key_eqb fuel (Collision ch es) k (hash k) (5 * Z.of_nat lvl) = Some d'
+    /\ (d' = Empty \/ inv n lvl d') /\ remove_post (Collision ch es) k d'.
+Proof.
+  intros Hfuel Hinv. apply inv_coll in Hinv. destruct Hinv as (Hlen & Hnd & Hh).
+  destruct fuel as [|fuel]; [lia|]. cbn [remove_aux].
+  rewrite bucket_remove_spec. cbn [rev app].
+  pose proof (fun e => in_bdel es k e Hnd) as Hin. pose proof (nodup_bdel es k Hnd) as Hnd'.
+  destruct (bdel es k) as [|[k' v'] [|e2 rest]] eqn:Ek.
+  - eexists. split; [reflexivity|]. split; [now left|]. intros e. cbn [bindings]. apply Hin.
+  - eexists. split; [reflexivity|]. split.
+    + right. apply inv_leaf. symmetry. apply (Hh (k', v')). apply Hin. now left.
+    + intros e. cbn [bindings]. apply Hin.
+  - eexists. split; [reflexivity|]. split.
+    + right. apply inv_coll. split; [cbn [length]; lia|]. split; [exact Hnd'|].
+      intros e He. apply Hh. now apply Hin.
+    + intros e. cbn [bindings]. apply Hin.
+Qed.
+
+Lemma remove_ok n : forall lvl fuel d k,
+  (n < fuel)%nat -> inv n lvl d ->
+  exists d', remove_aux key val key_eqb fuel d k (hash k) (5 * Z.of_nat lvl) = Some d'
+    /\ (d' = Empty \/ inv n lvl d') /\ remove_post d k d'.
+Proof.
+  induction n as [|n IH]; intros lvl fuel d k Hfuel Hinv.
+  - destruct d as [|lh lk lv|ch es|bm cs].
+    + now apply inv_not_empty in Hinv.
+    + apply remove_leaf_ok; [lia|assumption].
+    + apply remove_coll_ok; [lia|assumption].
+    + cbn [inv] in Hinv. contradiction.
+  - destruct d as [|lh lk lv|ch es|bm cs].
+    + now apply inv_not_empty in Hinv.
+    + apply remove_leaf_ok; [lia|assumption].
+    + apply remove_coll_ok; [lia|assumption].
+    + pose proof Hinv as Hinv0. apply inv_node in Hinv. destruct Hinv as [[Hbm HF] Hcanon].
+      destruct fuel as [|fuel]; [lia|]. cbn [remove_aux].
+      rewrite bit_of_frag, bit_test.
+      pose proof (frag_lt (hash k) lvl) as Hf. set (f := frag (hash k) lvl) in *.
+      pose proof (node_split n lvl bm cs f Hf HF) as Hsplit.
+      destruct (tb bm f) eqn:Etb; cbn [negb].
+      * rewrite slot_index_lo, shift_succ.
+        destruct Hsplit as (clo & c & chi & -> & Hlen & Hlo & [Hc Hck] & Hhi).
+        rewrite <- Hlen, child_at_app.
+        destruct (IH (S lvl) fuel c k) as (c' & Hrem & Hinv' & Hpost); [lia|exact Hc|].
+        rewrite Hrem.
+        assert (Hsib : forall e, In e (flat_map bindings clo) \/ In e (flat_map bindings chi) -> fst e <> k).
+        { intros e [H|H]; [eapply sib_lo|eapply sib_hi]; eassumption || reflexivity. }
+        assert (Hgen : c' <> Empty ->
+          exists d', Some (collapse_node key val bm (clo ++ c' :: chi)) = Some d'
+            /\ (d' = Empty \/ inv (S n) lvl d') /\ remove_post (Node bm (clo ++ c :: chi)) k d').
+        { intros Hne. destruct Hinv' as [->|Hinv']; [contradiction|].
+          assert (Hpre : pre n lvl bm (clo ++ c' :: chi)).
+          { split; [exact Hbm|]. rewrite (slots_split bm f Hf), Etb.
+            apply Forall2_app; [exact Hlo|]. cbn [app]. constructor; [|exact Hhi].
+            split; [exact Hinv'|]. intros e He. apply Hpost in He. apply (Hck e (proj1 He)). }
+          destruct (collapse_ok n lvl bm _ Hpre) as [Hr Hb].
+          eexists. split; [reflexivity|]. split; [exact Hr|].
+          intros e. rewrite Hb, !bindings_node, !flat_map_bindings_app. cbn [flat_map].
+          rewrite !in_app_iff, (Hpost e). split.
+          - intros [H|[[H Hne']|H]].
+            + split; [now left|]. apply Hsib. now left.
+            + split; [right; now left|assumption].
+            + split; [right; now right|]. apply Hsib. now right.
+          - intros [[H|[H|H]] Hne']; [now left|right; left; now split|right; now right]. }
+        destruct c' as [|h' k' v'|h' es'|bm' cs'].
+        -- unfold remove_slot. rewrite remove_at_app. cbn [rev app].
+           assert (Hpre : pre n lvl (int_and bm (int_not (2 ^ Z.of_nat f))) (clo ++ chi)).
+           { split; [now apply clear_range|]. rewrite slots_clear by assumption.
+             apply Forall2_app; assumption. }
+           destruct (collapse_ok n lvl _ _ Hpre) as [Hr Hb].
+           eexists. split; [reflexivity|]. split; [exact Hr|].
+           intros e. rewrite Hb, !bindings_node, !flat_map_bindings_app. cbn [flat_map].
+           rewrite !in_app_iff. specialize (Hpost e). cbn [bindings In] in Hpost. split.
+           ++ intros [H|H]; (split; [tauto|]); apply Hsib; tauto.
+           ++ intros [[H|[H|H]] Hne']; [now left| |now right]. exfalso. apply Hpost. now split.
+        -- rewrite update_at_app. cbn [rev app]. apply Hgen. discriminate.
+        -- rewrite update_at_app. cbn [rev app]. apply Hgen. discriminate.
+        -- rewrite update_at_app. cbn [rev app]. apply Hgen. discriminate.
+      * eexists. split; [reflexivity|]. split; [now right|].
+        intros e. split; [|tauto]. intros He. split; [exact He|].
+        intros Hk. rewrite bindings_node in He. apply (children_frag _ _ _ _ _ HF) in He.
+        apply slots_In in He. rewrite Hk in He. fold f in He. destruct He as [_ He]. congruence.
+Qed.
+
 End Proofs.
